@@ -10,13 +10,15 @@ import (
 	"runtime"
 	"strings"
 	"sync"
+	"syscall"
 	"time"
 )
 
 type Verdict struct {
 	Status  string // unsat, sat, unknown, timeout, error, trivial
 	Solver  string
-	Seconds float64
+	Seconds float64 // wall-clock seconds
+	CPU     float64 // CPU seconds (user+system) of the solver process that gave the verdict
 	Output  string // solver output (first lines) — model when sat
 	Script  string // path of the query (kept only for failures)
 }
@@ -202,7 +204,11 @@ func (s *slots) release(n int) {
 	s.cond.Broadcast()
 }
 
-// RunQuery races the solvers on one script.
+// WallFactor: a solver's budget is CPU time (RLIMIT_CPU on the solver process), so that a verdict does not depend on how
+// busy the machine is; the wall-clock limit is only a backstop at WallFactor times the budget.
+const WallFactor = 10
+
+// RunQuery races the solvers on one script. timeoutS is each solver's budget in CPU seconds.
 func RunQuery(script string, dir, name string, timeoutS int, solvers []SolverCfg) Verdict {
 	file := filepath.Join(dir, name+".smt2")
 	if err := os.WriteFile(file, []byte(script), 0o644); err != nil {
@@ -210,7 +216,8 @@ func RunQuery(script string, dir, name string, timeoutS int, solvers []SolverCfg
 	}
 	got := cpuSlots.acquire(len(solvers))
 	defer cpuSlots.release(got)
-	ctx, cancel := context.WithTimeout(context.Background(), time.Duration(timeoutS+2)*time.Second)
+	wallS := timeoutS * WallFactor
+	ctx, cancel := context.WithTimeout(context.Background(), time.Duration(wallS+2)*time.Second)
 	defer cancel()
 	type res struct {
 		v Verdict
@@ -220,13 +227,22 @@ func RunQuery(script string, dir, name string, timeoutS int, solvers []SolverCfg
 	for _, s := range solvers {
 		s := s
 		go func() {
-			args := s.Args(file, timeoutS)
-			cmd := exec.CommandContext(ctx, args[0], args[1:]...)
+			args := s.Args(file, wallS)
+			// the shell only sets the CPU limit and execs the solver: the kernel kills the solver when the budget is spent
+			sh := append([]string{"-c", fmt.Sprintf("ulimit -t %d; exec \"$@\"", timeoutS+1), "sh"}, args...)
+			cmd := exec.CommandContext(ctx, "/bin/sh", sh...)
 			var out bytes.Buffer
 			cmd.Stdout = &out
 			cmd.Stderr = &out
 			t0 := time.Now()
 			_ = cmd.Run()
+			cpu, killed := 0.0, false
+			if ps := cmd.ProcessState; ps != nil {
+				cpu = (ps.UserTime() + ps.SystemTime()).Seconds()
+				if ws, ok := ps.Sys().(syscall.WaitStatus); ok && ws.Signaled() {
+					killed = true // CPU budget spent (SIGKILL/SIGXCPU from the rlimit) or cancelled by the race
+				}
+			}
 			fl := firstLine(out.String())
 			st := "unknown"
 			switch {
@@ -234,7 +250,7 @@ func RunQuery(script string, dir, name string, timeoutS int, solvers []SolverCfg
 				st = "unsat"
 			case fl == "sat":
 				st = "sat"
-			case fl == "timeout" || strings.Contains(fl, "interrupted") || ctx.Err() != nil:
+			case fl == "timeout" || strings.Contains(fl, "interrupted") || ctx.Err() != nil || killed:
 				st = "timeout"
 			case strings.HasPrefix(fl, "(error") || strings.Contains(fl, "rror"):
 				st = "error"
@@ -243,7 +259,7 @@ func RunQuery(script string, dir, name string, timeoutS int, solvers []SolverCfg
 			if len(o) > 6000 {
 				o = o[:6000]
 			}
-			ch <- res{Verdict{Status: st, Solver: s.Name, Seconds: time.Since(t0).Seconds(), Output: o}}
+			ch <- res{Verdict{Status: st, Solver: s.Name, Seconds: time.Since(t0).Seconds(), CPU: cpu, Output: o}}
 		}()
 	}
 	var last Verdict
